@@ -294,8 +294,8 @@ func check(scen string, in In) (*mc.Violation, string) {
 		if v := checkFileAgainstReader(scen, in, ex.text, got, err, ex.features); v != nil {
 			return v, kind + "/differs-from-reader"
 		}
-		if in.Entry == "file-missing" {
-			return nil, "missing-file/error"
+		if in.Entry == "file-missing" || in.Entry == "file-dir" {
+			return nil, "not-a-file/error"
 		}
 	}
 	if err != nil {
@@ -400,6 +400,15 @@ func (c *dev) ask(n int, label string) int {
 	return c.x.Deviate(n, label)
 }
 
+// treeBody maps the tree's body alternative to the table index: the very long line is left to the body product
+// (all deliveries, all blank-line counts), it is by far the most expensive alternative and interacts with nothing else.
+func treeBody(i int) int {
+	if i >= longBody {
+		return i + 1
+	}
+	return i
+}
+
 // treeDoc asks every deviation point of a changelog with n entries.
 func treeDoc(c *dev, n int) (Doc, string) {
 	lead := c.ask(3, "leading-blank-lines")
@@ -408,7 +417,7 @@ func treeDoc(c *dev, n int) (Doc, string) {
 	for i := 0; i < n; i++ {
 		l := entryLabels[i]
 		ps = append(ps, Pick{Source: c.ask(base.source, l["source"]), Version: c.ask(nVersion, l["version"]), Dists: c.ask(base.dists, l["dists"]),
-			Opts: c.ask(base.opts, l["options"]), OptSep: c.ask(len(altOptSep), l["option-separator"]), Body: c.ask(base.body, l["body"]), Before: c.ask(2, l["blank-before-body"]),
+			Opts: c.ask(base.opts, l["options"]), OptSep: c.ask(len(altOptSep), l["option-separator"]), Body: treeBody(c.ask(base.body-1, l["body"])), Before: c.ask(2, l["blank-before-body"]),
 			After: c.ask(2, l["blank-after-body"]), Maint: c.ask(base.maint, l["maintainer"]), Date: c.ask(base.date, l["date"])})
 		if i < n-1 {
 			between = append(between, 1+c.ask(3, "blank-lines-between"))
@@ -463,7 +472,7 @@ func Run(r *mc.Run) {
 		}
 	}
 	r.Scenario("model-tree", map[string]interface{}{"entries": "1..3", "deviation_bound_k": fmt.Sprintf("%d with whole delivery, %d with onebyte / smallbuf delivery", k, k-1),
-		"per_entry_points": fmt.Sprintf("source(%d) version(%d) distributions(%d) options(%d) option-separator(%d) body(%d) blank-before(2) blank-after(2) maintainer(%d) date(%d)", base.source, nVersion, base.dists, base.opts, len(altOptSep), base.body, base.maint, base.date),
+		"per_entry_points": fmt.Sprintf("source(%d) version(%d) distributions(%d) options(%d) option-separator(%d) body(%d) blank-before(2) blank-after(2) maintainer(%d) date(%d)", base.source, nVersion, base.dists, base.opts, len(altOptSep), base.body-1, base.maint, base.date),
 		"global_points":    "leading blank lines(0..2) blank lines between entries(1..3) trailing blank lines(0..2) final newline(present/absent)",
 		"apis":             apis, "delivery": "whole, onebyte, smallbuf(ParseOne only)",
 		"sharding": "executions partitioned by entry count, API, delivery and their first non-default answer"}, len(shards),
@@ -734,7 +743,7 @@ func fileEntryScenario(r *mc.Run) {
 	}
 	r.Scenario("file-entry-points", map[string]interface{}{"entry_points": entryPoints, "functions": "ParseFile (API Parse), ParseFileOne (API ParseOne: first entry)",
 		"inputs": len(jobs), "slice": "9 changelogs (1..3 entries): intact, final newline absent, 13 truncation points per entry, first and last occurrence of each substitution",
-		"oracle": "the property's clauses, and the same outcome as Parse / ParseOne through a reader on the same bytes; missing file: error and no entries"}, len(jobs),
+		"file_kinds": "regular file (also empty: prefix 0), symlink to it, named pipe fed by a goroutine, directory, missing", "oracle": "the property's clauses, and the same outcome as Parse / ParseOne through a reader on the same bytes; missing file / directory: error and no entries"}, len(jobs),
 		func(i int, st *mc.Stats) bool {
 			j := jobs[i]
 			for _, ep := range entryPoints {
